@@ -33,6 +33,7 @@ var _ telemetry.ProgramReport // the contracts below name the type
 //@ ghost private bool
 //@ ghost contributed bool
 //@ ghost nprog int
+//@ ghost niter int
 //@ ghost spanName string
 //@ ghost spanOK bool
 //@ ghost spanExpiry time
@@ -66,7 +67,7 @@ func specUploader(u *uploader) bool {
 
 //@ contract Run
 //@   recovers-first
-//@   modifies heap, $fsops, $lockHeld, $markerAbsent, $reportExists, $contributed, $minsize, $nprog, $spanName, $spanOK, $spanExpiry, $collected, $dateOK, $weekAge, $tooOld, $lockLeft, $status, $discarded
+//@   modifies heap, $fsops, $lockHeld, $markerAbsent, $reportExists, $contributed, $minsize, $nprog, $niter, $spanName, $spanOK, $spanExpiry, $collected, $dateOK, $weekAge, $tooOld, $lockLeft, $status, $discarded
 
 //@ contract newUploader
 //@   ensures result1 == nil ==> uploaderOK(result0) && fresh(result0)
@@ -92,7 +93,7 @@ func specUploader(u *uploader) bool {
 //@   ensures uploaderOK(u)
 //@   ensures $mode == "off" ==> $fsops == old($fsops)
 //@   loop 1: invariant uploaderOK(u) && (len(ready) > 0 ==> $mode == "on") && ($mode == "off" ==> $fsops == old($fsops))
-//@   modifies u.cache.m, entries(u.cache.m), maps(string, int64), $fsops, $reportExists, $lockHeld, $markerAbsent, $contributed, $minsize, $nprog, $spanName, $spanOK, $spanExpiry, $collected, $dateOK, $weekAge, $tooOld, $lockLeft, $status, $discarded
+//@   modifies u.cache.m, entries(u.cache.m), maps(string, int64), $fsops, $reportExists, $lockHeld, $markerAbsent, $contributed, $minsize, $nprog, $niter, $spanName, $spanOK, $spanExpiry, $collected, $dateOK, $weekAge, $tooOld, $lockLeft, $status, $discarded
 
 // findWork only reads: nothing is created, changed or removed (it may create
 // the upload directory itself). A report name is put on the ready list only in
@@ -146,7 +147,7 @@ func specUploader(u *uploader) bool {
 //@   at loop 1 end: assert err == nil && end.Before(u.startTime) ==> $collected == f
 //@   at call createReport#1: assert arg1 == earliest[expiry]
 //@   loop 2: invariant uploaderOK(u) && todo != nil && (len(todo.readyfiles) > 0 ==> $mode == "on") && $mode != "off"
-//@   modifies todo.readyfiles, u.cache.m, entries(u.cache.m), maps(string, int64), $fsops, $reportExists, $contributed, $minsize, $nprog, $dateOK, $weekAge, $tooOld, $collected
+//@   modifies todo.readyfiles, u.cache.m, entries(u.cache.m), maps(string, int64), $fsops, $reportExists, $contributed, $minsize, $nprog, $niter, $dateOK, $weekAge, $tooOld, $collected
 
 //@ contract latestReport
 //@   loop 1: invariant latest == "" || strings.HasSuffix(latest, ".json")
@@ -315,10 +316,16 @@ func specUploader(u *uploader) bool {
 //@   loop 3: invariant forall j int, k string :: 0 <= j && j < len(upload.Programs) && in(k, upload.Programs[j].Stacks) ==> cfg.HasStack(upload.Programs[j].Program, config.SpecStackName(k))
 // ... and a program entry is left out exactly when its build is not approved.
 //@   at call HasGoVersion#1: ghost $nprog = len(upload.Programs)
+// ... and every program of the local report is examined: an unapproved build is
+// skipped, it does not end the copying.
+//@   at call MarshalIndent#1: ghost $niter = 0
+//@   at call HasGoVersion#1: ghost $niter = $niter + 1
+//@   loop 3: invariant $niter == rangeindex + 1
+//@   at call MarshalIndent#2: assert $niter == len(report.Programs)
 //@   at loop 3 end: assert len(upload.Programs) == $nprog + ite(approvedBuild(cfg, p), 1, 0)
 //@   at call MarshalIndent#2: assert same(upload.X, report.X) && upload.Week == report.Week
 //@   at call MarshalIndent#2: assert approvedReport(cfg, upload)
-//@   modifies u.cache.m, entries(u.cache.m), maps(string, int64), $fsops, $reportExists, $contributed, $minsize, $nprog, $dateOK, $weekAge, $tooOld
+//@   modifies u.cache.m, entries(u.cache.m), maps(string, int64), $fsops, $reportExists, $contributed, $minsize, $nprog, $niter, $dateOK, $weekAge, $tooOld
 
 // uploadReport: a report dated in the future is not sent.
 //@ contract (*uploader).uploadReport
